@@ -104,6 +104,16 @@ CLAIMS = {
         "design_ref": "DESIGN.md section 4 C09",
         "note": "CUDA kernels out of scope; numba compiles the Python kernels faithfully; numpy slicing/roll semantics trusted.",
     },
+    "C10": {
+        "engine": "E3 value numbering + E4 shape summaries",
+        "category": "other",
+        "technique": "static analysis: canonical-term comparison of get_wavelet_shape/fwt/iwt with their documented pipelines; parameter-tuple and default agreement across the five sites; shape/slice provenance of the operators",
+        "text": "PARTIAL. Decides that the shape helper, fwt, iwt and both operators use one (wave_name, axes, level) tuple with identical defaults, mode='zero' at every pywt call, axes at "
+                "wavedecn/coeffs_to_array/waverecn, the same even-padding formula and the same centred resize for padding and cropping, and that the inverse operator reconstructs with the coefficient "
+                "slices the helper computed for its own arguments. A mismatch in any of these breaks invertibility/adjointness for some shape, family, axes or level; the check covers all of them at once.",
+        "design_ref": "DESIGN.md section 4 C10",
+        "note": "NOT decided: orthonormality of PyWavelets' filters and that zero-mode analysis/synthesis on even lengths are mutually adjoint isometries (library facts, trusted).",
+    },
     "C11": {
         "engine": "E6 paths, shape-provenance domain, E3 value numbering",
         "category": "other",
